@@ -257,8 +257,16 @@ def variants():
         meas = Measure(kw.get("itype", "dx"), domain=m, subdomain_id=kw.get("sid", "everywhere"), metadata=kw.get("metadata"))
         if kw.get("expr", "").startswith("restricted"):
             meas = Measure("dS", domain=m, subdomain_id=kw.get("sid", "everywhere"), metadata=kw.get("metadata"))
-        return expr * meas
+        form = expr * meas
+        for _ in range(kw.get("copies", 1) - 1):
+            form = form + expr * meas            # the same integral once more (a form is the SUM of its integrals)
+        if kw.get("extra"):
+            form = form + g * v * Measure("ds", domain=m)
+        return form
 
+    pair("the same integral once vs twice (a vs a + a)", base, {}, {"copies": 2})
+    pair("the same integral twice vs three times", base, {"copies": 2}, {"copies": 3})
+    pair("k + b vs k + b + k", base, {"extra": True}, {"extra": True, "copies": 2})
     pair("literal int 2 vs 3", base, {"literal": 2}, {"literal": 3})
     pair("literal float 0.1 vs next float", base, {"literal": 0.1}, {"literal": 0.1 + 2 ** -56})
     pair("literal float 1e-30 vs 1.1e-30", base, {"literal": 1e-30}, {"literal": 1.1e-30})
